@@ -57,19 +57,28 @@ def replay_kani(prop, result, tier, scratch=None, watchdog_s=20):
     env = dict(os.environ)
     env["CARGO_NET_OFFLINE"] = "true"
     env.pop("RUSTUP_TOOLCHAIN", None)
-    # 1. obtain the concrete values
-    fd, tdir = kanirun._acquire_slot()
-    try:
-        cmd = kanirun.kani_cmd(h, tdir, ["-Z", "concrete-playback", "--concrete-playback=print"],
-                               module=meta.get("module"))
+    # 1. obtain the concrete values (Kani's playback-mode CBMC run is heavier than verification and
+    #    occasionally dies; its output is kept, and it is retried once with a doubled memory cap)
+    text = ""
+    plog = os.path.join(kanirun.CACHE, "logs", f"{prop}-{tier}", h + ".playback.log")
+    os.makedirs(os.path.dirname(plog), exist_ok=True)
+    for attempt, mem in enumerate((result.get("mem_gb", 12), min(48, 2 * result.get("mem_gb", 12) + 8))):
+        fd, tdir = kanirun._acquire_slot()
         try:
-            p = subprocess.run(cmd, cwd=scratch, env=env, capture_output=True, text=True,
-                               timeout=max(2400, 4 * result.get("timeout_s", 600)), preexec_fn=_limits(result.get("mem_gb", 12)))
-            text = p.stdout + p.stderr
-        except subprocess.TimeoutExpired:
-            return {"reproduced": False, "detail": "concrete-playback generation timed out", "path": None}
-    finally:
-        os.close(fd)
+            cmd = kanirun.kani_cmd(h, tdir, ["-Z", "concrete-playback", "--concrete-playback=print"],
+                                   module=meta.get("module"))
+            try:
+                p = subprocess.run(cmd, cwd=scratch, env=env, capture_output=True, text=True,
+                                   timeout=max(2400, 4 * result.get("timeout_s", 600)), preexec_fn=_limits(mem))
+                text = p.stdout + p.stderr
+            except subprocess.TimeoutExpired:
+                text = "TIMEOUT of concrete-playback generation"
+        finally:
+            os.close(fd)
+        with open(plog, "a") as f:
+            f.write(f"##### attempt {attempt} mem={mem}G\n" + text[-20000:] + "\n")
+        if _extract_tests(text):
+            break
     tests = _extract_tests(text)
     fail_descs = [c.get("desc", "") for c in result["parsed"].get("fail_list", [])]
     cand = [t for t in tests if t[0] != "cover"]
